@@ -2,9 +2,14 @@ package checks
 
 import (
 	"fmt"
+	"os"
+	"path/filepath"
 	"strings"
+	"sync/atomic"
+	"syscall"
 
 	"verif/internal/core"
+	"verif/internal/crash"
 	"verif/internal/sched"
 )
 
@@ -177,6 +182,7 @@ func runC02(env *core.Env) {
 	}
 	st.PerScenario["io-error-phase"] = faultPhase(env, "C02", f.SA, fcmds)
 	st.PerScenario["short-write-phase"] = shortWritePhase(env, "C02", f.SA, fcmds)
+	st.PerScenario["held-lock-phase"] = c02HeldLock(env, f.SA, fcmds)
 	// requests that must be refused (a field too large for a log line): refused means the log is byte-identical
 	{
 		w := env.W0()
@@ -212,4 +218,80 @@ func appendUniq(xs []string, x string) []string {
 		return xs
 	}
 	return append(xs, x)
+}
+
+// c02HeldLock: "a command never blocks waiting for the lock" without a clock. The harness holds the exclusive flock on
+// .ergo/lock for the whole run of each command (production binary under strace). The command must try the lock at most
+// once (a second attempt after EAGAIN is waiting for it, however short the pause) and must leave every file of the store
+// as it was; if it touched the lock at all it must exit non-zero (init on an existing store has nothing to serialise
+// and succeeds without the lock - changing nothing).
+func c02HeldLock(env *core.Env, pre core.Store, cmds []crashCmd) map[string]interface{} {
+	var runs, attempts int64
+	env.Parallel(len(cmds), func(w *core.Worker, i int) {
+		c := cmds[i]
+		root, scratch := crashWorkdir(w)
+		once := func() (n int, exit int, changed string, herr error) {
+			if err := pre.Materialize(root); err != nil {
+				return 0, 0, "", err
+			}
+			lf, err := os.OpenFile(filepath.Join(root, ".ergo", "lock"), os.O_RDWR, 0)
+			if err != nil {
+				return 0, 0, "", err
+			}
+			defer lf.Close()
+			if err := syscall.Flock(int(lf.Fd()), syscall.LOCK_EX|syscall.LOCK_NB); err != nil {
+				return 0, 0, "", err
+			}
+			tr, err := crash.Run(env.Prod, root, c.Req, "", scratch)
+			syscall.Flock(int(lf.Fd()), syscall.LOCK_UN)
+			if err != nil {
+				return 0, 0, "", err
+			}
+			for _, call := range tr.Calls {
+				if call.Name == "flock" && !strings.Contains(call.Args, "LOCK_UN") {
+					n++
+				}
+			}
+			after, _ := core.Snapshot(root)
+			return n, tr.Exit, c10Diff(pre, after), nil
+		}
+		n, exit, changed, err := once()
+		if err != nil {
+			env.HarnessError("held-lock phase: %v", err)
+		}
+		atomic.AddInt64(&runs, 1)
+		atomic.AddInt64(&attempts, int64(n))
+		kind, detail := "", ""
+		switch {
+		case exit == 0 && changed != "":
+			kind, detail = "wrote-although-the-lock-was-held", "exit 0 and the store changed ("+changed+") while another descriptor held the exclusive lock for the whole run"
+		case exit == 0:
+			// nothing written: a command that has nothing to serialise (init on an existing store) may well succeed
+		case changed != "":
+			kind, detail = "lock-busy-but-changed-the-store", "exit "+fmt.Sprint(exit)+" under a held lock, yet the store changed: "+changed
+		case n > 1:
+			kind, detail = "command-waits-for-the-lock", fmt.Sprintf("%d attempts to take the lock while it was held (after the first EAGAIN the command kept trying)", n)
+		}
+		if kind == "" {
+			return
+		}
+		sig := "C02 kind=" + kind + " cmd=" + c.Name
+		if env.ViolationSeen(sig) {
+			return
+		}
+		for k := 0; k < 4; k++ { // the same four more times
+			n2, exit2, changed2, err := once()
+			if err != nil || (exit2 == 0) != (exit == 0) || (changed2 != "") != (changed != "") || (n2 > 1) != (n > 1) {
+				env.Logf("UNCONFIRMED held-lock candidate %s", sig)
+				unconfirmed.Add(1)
+				return
+			}
+		}
+		held := c.Req
+		held.HoldLock = true
+		env.Violation(sig, fmt.Sprintf("`%s` while the harness holds the flock on .ergo/lock: %s", c.Req.Shell(), detail),
+			mkTrace(pre, "held lock: "+detail, []core.Req{held}, Assert{Kind: "exit_nonzero", Step: 1}))
+	})
+	return map[string]interface{}{"commands": len(cmds), "runs": runs, "lock_attempts_seen": attempts,
+		"rule": "each command of the alphabet with the store lock held by another descriptor for its whole run (production binary, strace): at most one attempt to take the lock, store byte-identical (exit 0 only for a command that writes nothing)"}
 }
